@@ -376,6 +376,14 @@ pub fn run_check(prop: &'static str, tier: &str, threads: usize, seed: u64) -> i
         for f in &r.found {
             if f.v.prop != prop {
                 other.push(format!("{} [{}] x{}", f.v.prop, f.v.kind, f.count));
+                // informational only: the check of that property decides it (its own ladder
+                // or tools/cross_sweep.py); a check never reports another property's verdict
+                if known::find(&f.v).is_none() {
+                    println!(
+                        "NOTE: while checking {} in {}, a monitor of {} fired: [{}] x{} (not a verdict of this check)",
+                        prop, r.scenario, f.v.prop, f.v.kind, f.count
+                    );
+                }
                 continue;
             }
             if let Some(k) = known::find(&f.v) {
